@@ -80,6 +80,122 @@ def to_schedule(beh):
     return steps, actors
 
 
+def real_caps():
+    """buffer sizes of the real channels, read from the tree under test"""
+    import re
+    out = {"stream": 500, "sender": 500}
+    for key, fn, name in (("stream", "replication/grpc_server.go", "defaultReplicationStreamChannelSize"), ("sender", "replication/sender.go", "defaultSenderChannelSize")):
+        try:
+            m = re.search(name + r"\s*=\s*(\d+)", open(os.path.join(vlib.REPO, fn)).read())
+            if m:
+                out[key] = int(m.group(1))
+        except OSError:
+            pass
+    return out
+
+
+def stalled_replicas(res, binary, quick):
+    """ReplStall.tla: bounded channels, stalled replicas, the done signal and the lock order of the tear-down.  TLC checks
+    NeverStuck (safety) and MasterProgresses / HealthyGetAll (liveness under fairness) for the design and shows that the tear-down
+    order 'lock first' gets stuck; the counterexample's environment steps (connects, stall, commits, connection failure) are then
+    run against the real goroutines with the commits scaled to the real channel sizes."""
+    base = dict(Replicas='{"10.0.0.7:40001","10.0.0.7:40002"}', NMsg=3 if quick else 4, Cap=1, QCap=1 if quick else 2, Deviations="{}", RecordHist="TRUE")
+    r = vlib.run_tlc("ReplStall", "rs_safe.cfg", cfg_text=vlib.cfg_text(base, invariants=["NeverStuck", "ReceivedInCommitOrder"], view="View"), timeout=1800)
+    vlib.tlc_ok(r, "ReplStall safe")
+    res.tlc(r, "ReplStall/pure/NeverStuck")
+    if r["violated"]:
+        raise Undecided("MODEL-DRIFT: ReplStall.tla (pure) violates %s" % r["violated"])
+    live = dict(base, NMsg=3, QCap=1, RecordHist="FALSE")
+    r = vlib.run_tlc("ReplStall", "rs_live.cfg", cfg_text=vlib.cfg_text(live, spec="LiveSpec", properties=["MasterProgresses", "HealthyGetAll"]), timeout=1800)
+    vlib.tlc_ok(r, "ReplStall live")
+    res.tlc(r, "ReplStall/pure/liveness")
+    if r["violated"]:
+        raise Undecided("MODEL-DRIFT: ReplStall.tla (pure) violates liveness %s" % r["violated"])
+    r = vlib.run_tlc("ReplStall", "rs_dev.cfg", cfg_text=vlib.cfg_text(dict(base, NMsg=4, QCap=2, Deviations='{"LockFirst"}'), invariants=["EmitStuck", "NeverStuck"], view="View"), timeout=900)
+    res.tlc(r, "ReplStall/LockFirst/NeverStuck(expected to fail)")
+    stuck = r["records"].get("STUCK", [])
+    if not r["violated"] or not stuck:
+        raise Undecided("MODEL-DRIFT: LockFirst no longer gets the fan-out stuck in ReplStall.tla")
+    caps = real_caps()
+    res.cov["real_channel_sizes"] = caps
+    steps = stuck[0]["steps"]
+    mcap = stuck[0]["cap"]
+    # environment steps of the counterexample; commits issued while a replica is stalled are scaled to the real buffer size
+    reps = []
+    for st in steps:
+        if st["act"] == "Connect" and st["r"] not in reps:
+            reps.append(st["r"])
+    stalled_r = [st["r"] for st in steps if st["act"] == "Stall"]
+    failed_r = [st["r"] for st in steps if st["act"] == "Fail"]
+    # the replica the fan-out is stuck behind: its handler was slow (in the model: simply not scheduled, or stalled) while its
+    # channel filled up, and its connection broke.  On the real code "slow for 500 transactions" is a stall.
+    if not failed_r:
+        raise Undecided("the stuck counterexample has no replica that disconnects: %s" % [(s["act"], s["r"]) for s in steps])
+    victim = stalled_r[0] if stalled_r and stalled_r[0] in failed_r else failed_r[0]
+    healthy = [x for x in reps if x != victim] or ["10.0.0.7:40009"]
+    if healthy[0] not in reps:
+        reps.append(healthy[0])
+    n_after_model = 0
+    seen_stall = False
+    n_before = 0
+    for st in steps:
+        if st["act"] in ("Stall", "Fail") and st["r"] == victim:
+            seen_stall = True
+        elif st["act"] == "Commit":
+            if seen_stall:
+                n_after_model += 1
+            else:
+                n_before += 1
+    # the model needs 1 (in Send) + Cap (buffered) + 1 (fan-out blocked) commits to block; the real channels need caps["stream"] + 2
+    n_after = caps["stream"] + 2 + min(100, caps["sender"] // 2)
+    scenarios = []
+    for variant in ("disconnects", "resumes"):
+        ops = [{"op": "fan_start"}] + [{"op": "fan_serve_bg", "x": {"r": a}} for a in reps] + [{"op": "sleep", "sleep_ms": 60}]
+        ops += [{"op": "fan_send_many", "x": {"msg": 1, "n": n_before}}] if n_before else []
+        ops += [{"op": "fan_wait", "x": {"r": healthy[0], "n": n_before, "ms": 3000}}]
+        ops += [{"op": "fan_stall", "x": {"r": victim}}, {"op": "fan_send_many", "x": {"msg": 1 + n_before, "n": n_after}}, {"op": "sleep", "sleep_ms": 150},
+                {"op": "fan_state", "x": {"ms": 0}}]
+        ops += [{"op": "fan_fail" if variant == "disconnects" else "fan_unstall", "x": {"r": victim}}]
+        total = n_before + n_after
+        ops += [{"op": "fan_wait", "x": {"r": healthy[0], "n": total, "ms": 8000}},
+                {"op": "fan_send_many", "x": {"msg": total + 1, "n": 3, "ms": 3000}},
+                {"op": "fan_wait", "x": {"r": healthy[0], "n": total + 3, "ms": 5000}}]
+        if variant == "resumes":
+            ops += [{"op": "fan_wait", "x": {"r": victim, "n": total + 3, "ms": 5000}}]
+        ops += [{"op": "fan_state", "x": {"ms": 0}}, {"op": "fan_stop"}]
+        scenarios.append({"id": "stall-" + variant, "ops": ops})
+    obs = vlib.run_cases(binary, scenarios, timeout=240, tag="c26stall")
+    for sc in scenarios:
+        variant = sc["id"].split("-")[1]
+        o = obs.get(json.dumps(sc["id"]))
+        replay = {"check": "fanout.stall", "scenario": sc["id"], "ops": sc["ops"], "model_counterexample": [(s["act"], s["r"]) for s in steps]}
+        what = "a replica (%s) stalls until its stream channel is full (%d transactions committed meanwhile) and then %s" % (
+            victim, n_after, "its connection breaks" if variant == "disconnects" else "resumes")
+        if o is None:
+            raise Undecided("no observation for %s" % sc["id"])
+        if isinstance(o, dict) and "died" in o:
+            res.violation("%s: the master died: %s" % (what, ((o.get("stderr") or "") + (o.get("stdout") or ""))[-400:]), replay)
+            continue
+        total = n_before + n_after
+        sends = [x for x in o if isinstance(x, dict) and "accepted" in x]
+        waits = [x for x in o if isinstance(x, dict) and "reached" in x]
+        final = [x for x in o if isinstance(x, dict) and "received" in x][-1]["received"]
+        hgot = final.get(healthy[0], [])
+        if any(x.get("blocked") for x in sends):
+            res.violation("%s: the master is blocked - the replication sender no longer accepts committed transactions (healthy replica %s has %d of %d)" % (
+                what, healthy[0], len(hgot), total + 3), replay)
+        elif hgot != list(range(1, total + 4)):
+            missing = [m for m in range(1, total + 4) if m not in hgot]
+            res.violation("%s: replica %s stayed connected and healthy but received %d of %d transactions (missing e.g. %s; in order: %s)" % (
+                what, healthy[0], len(hgot), total + 3, missing[:5], hgot == sorted(hgot)), replay)
+        elif variant == "resumes" and final.get(victim, []) != list(range(1, total + 4)):
+            vg = final.get(victim, [])
+            res.violation("%s: the resumed replica received %d of %d transactions (in order: %s)" % (what, len(vg), total + 3, vg == sorted(vg)), replay)
+        else:
+            res.cov["traces_validated_against_impl"] += 1
+        res.sample({"scenario": sc["id"], "committed": total + 3, "healthy_received": len(hgot), "victim_received": len(final.get(victim, []))}, limit=4)
+
+
 def run(prop, tier):
     res = Result(prop, tier)
     rng = random.Random(vlib.seed() * 67867967 + 26)
@@ -224,6 +340,7 @@ def run(prop, tier):
                 res.violation("free-running: replica %s stayed connected (from before the first commit) but received %d of %d transactions: missing e.g. %s" % (
                     a, len(got), nmsg, [m for m in want if m not in got][:10]), {"check": "fanout.stress", "seed": vlib.seed()})
         res.cov["traces_validated_against_impl"] += 1
+    stalled_replicas(res, binary, quick)
     for sig, text in races.items():
         if "GRPCReplicationServer" in sig and "NoLock" in known:
             res.known_finding(known["NoLock"], {"race": sig})
